@@ -227,8 +227,81 @@ def run_cases(cases, res, tag):
             res.failures.append(f)
 
 
+def real_gen(tree):
+    """('ok', lines) | ('raises', exception class) | ('untokenizable', code) for the real generator on a tree"""
+    from genshi.template.astutil import ASTCodeGenerator
+    try:
+        code = ASTCodeGenerator(tree).code
+    except RecursionError:
+        raise
+    except Exception as e:  # noqa
+        return 'raises', type(e).__name__
+    ls = G.tokens_of(code)
+    if ls is None:
+        return 'untokenizable', code
+    return 'ok', ls
+
+
+def trees_of(case):
+    """the tree(s) the generator sees for a case: CPython's parse tree (raw) or the transformed tree (api)"""
+    src, mode, via = case['src'], case['mode'], case.get('via', 'raw')
+    try:
+        if via == 'api':
+            from genshi.template import eval as ev
+            node = ev._parse(src, mode)
+            xf = ev.ExpressionASTTransformer if mode == 'eval' else ev.TemplateASTTransformer
+            return xf().visit(node)
+        return ast.parse(src, mode=mode)
+    except RecursionError:
+        raise
+    except Exception:  # noqa
+        return None
+
+
+def wire_request(tree, mode):
+    if mode == 'eval':
+        return proto.line(Atom('C13'), Atom('gen'), G.to_wire(tree.body))
+    return proto.line(Atom('C13'), Atom('genS'), [G.to_wire(s) for s in tree.body])
+
+
 def compare_model(cases, res):
-    pass
+    """Lean gen vs ASTCodeGenerator on the same trees, as token streams"""
+    lines, meta = [], []
+    for c in cases:
+        try:
+            tree = trees_of(c)
+            if tree is None:
+                continue
+            req = wire_request(tree, c['mode'])
+            real = real_gen(tree)
+        except RecursionError:
+            res.count('model:recursion-limit')
+            continue
+        lines.append(req)
+        meta.append((c, real))
+    answers = proto.run_lines(lines)
+    for (c, real), ans in zip(meta, answers):
+        stream = 'gen-' + c['mode']
+        if ans == 'unmodelled':
+            res.count('model:unmodelled')
+            continue
+        if real[0] == 'untokenizable':
+            res.count('model:real-code-untokenizable')
+            continue
+        res.streams[stream] = res.streams.get(stream, 0) + 1
+        try:
+            model = proto.dec(ans)
+        except Exception:  # noqa
+            model = Atom(ans)
+        if real[0] == 'raises':
+            want = Atom('raises')
+        elif c['mode'] == 'eval':
+            want = [Atom('ok'), [t for _, l in real[1] for t in l]]
+        else:
+            want = [Atom('ok'), [[Atom(str(d)), l] for d, l in real[1]]]
+        res.count('model:' + ('raises' if want == 'raises' else 'ok'))
+        if model != want:
+            res.disagreements.append({'stream': stream, 'case': c, 'model': repr(model)[:600], 'real': repr(want)[:600]})
 
 
 def shard(arg):
